@@ -765,6 +765,8 @@ func calAndSetEventNode(e *Expr) {
 		)
 		return func(ctx *Ctx, params []Value) (res Value, err error) {
 			res, err = op(ctx, params)
+			// params may be a buffer reused by the engine, the event keeps its own copy
+			params = append([]Value(nil), params...)
 			e.EventChan <- Event{
 				EventType: OpExecEvent,
 				Data: OpEventData{
